@@ -28,7 +28,6 @@ over `TestResult` / `TextTestResult` leaves — for the fail-fast clauses that d
                                  (`inv3_steps`, `etod_stops_leaves`), and otherwise does not
 * `C04_exit`                   : exit status and summary of `testtools.run` for a module of test cases, with and without `-f`
 * `C04_failfast_kept`          : wrapping leaves the `failfast` of every result alone (D14), at any nesting depth
-Known finding (class `multiNoShouldStop`): `MultiTestResult.shouldStop` over a target without `shouldStop` raises.
 Not proved (correspondence only): `TextTestResult` behind `ThreadsafeForwardingResult`; everything through `ExtendedToStreamDecorator` + `StreamFailFast`.
 -/
 namespace TTV.Props.C04
@@ -3054,11 +3053,15 @@ example :
     (model i).obs.map (fun o => (o.ff, o.ss)) = [(some true, false), (some true, false), (some true, true), (some true, true)] := by
   decide
 
-/-- the known finding `multiNoShouldStop`: in the model (the intended reading) a `MultiTestResult` over a Twisted-style
-result reads `shouldStop` true after `stop()` — through the adapter's own flag; the code raises `AttributeError` there -/
+/-- a `MultiTestResult` over a Twisted-style result (no `shouldStop`) reads `shouldStop` through the adapter's property,
+i.e. the adapter's own flag: true after `stop()` (regression of the former finding `multiNoShouldStop`), also through
+an outer `ExtendedToOriginalDecorator` -/
 example :
     let i : Input := { shape := .multi [.etod (.sink .twisted)], hist := [.stop], prog := none }
-    multiNoShouldStop i = true ∧ (model i).obs.map (·.ss) = [true] ∧ holds i (model i) = true := by decide
+    let j : Input := { shape := .etod (.multi [.etod (.fsink false true .twisted), .etod (.tt false)]),
+                       hist := [.startTestRun, .startTest 1, .add .error 1 (.exc .real), .stopTest 1], prog := none }
+    (model i).obs.map (·.ss) = [true] ∧ holds i (model i) = true ∧
+    (model j).obs.map (·.ss) = [false, false, true, true] ∧ holds j (model j) = true := by decide
 
 /-- nested `MultiTestResult`s with different `failfast` settings keep them (regression of the former finding
 `nestedMultiFailfast`), and the second target still stops the run -/
